@@ -365,6 +365,14 @@ def run(rep):
         d = infoset.diff_text(text, r['s'])
         if d:
             kind = 'tail' if 'text after child' in d else ('strip' if ': text ' in d else ('attribute' if 'attribute' in d else 'structure'))
+            if kind == 'strip':
+                # 'strip' is the recorded finding only when the text that came back IS the input text without its outer white space
+                try:
+                    a_s, b_s = d[d.index(': text ') + 7:].split(' became ', 1)
+                    if eval(a_s).strip() != eval(b_s):
+                        kind = 'text-changed'
+                except Exception:
+                    kind = 'text-changed'
             rep.finding_or_violation('C09:silent:%s' % kind, 'input with %s is accepted and silently changed: %s' % (what, d), {'document': text[:2500], 'mutation': what, 'difference': d})
         else:
             n_kept += 1
